@@ -491,3 +491,30 @@ Definition build (W : world) (o : bopts) (g : bgraph) (roots : list spec) (impor
               bg_has_node := st_has_node st;
               bg_loads := st_loads st |}
   end.
+
+(* ---------- Builder::reload ---------- *)
+Definition redirect_graph (reds : list (spec * spec)) : graph :=
+  {| g_kind := KAll; g_roots := []; g_slots := []; g_redirects := reds; g_imports := [];
+     g_schemes := []; g_has_node := false; g_errkinds := [] |}.
+
+Fixpoint reload_specs (W : world) (o : bopts) (st : bstate) (specs : list spec) : bstate :=
+  match specs with
+  | [] => st
+  | s :: rest =>
+      let st1 := with_slots st (remove_assoc s (st_slots st)) in
+      reload_specs W o (load W o st1 s None false (bo_is_dynamic o) true 0 0) rest
+  end.
+
+Definition reload (W : world) (o : bopts) (g : bgraph) (specs : list spec) : option bgraph :=
+  let resolved := map (resolve (redirect_graph (bg_redirects g))) specs in
+  let st0 := {| st_slots := bg_slots g; st_redirects := bg_redirects g; st_has_node := bg_has_node g;
+                st_pending := []; st_dyn := []; st_deferred := [];
+                st_in_dyn := bo_is_dynamic o; st_resolved_roots := []; st_loads := [] |} in
+  let st1 := reload_specs W o st0 resolved in
+  match resolve_pending (build_fuel W) W o st1 with
+  | None => None
+  | Some st =>
+      Some {| bg_kind := bg_kind g; bg_roots := bg_roots g; bg_slots := st_slots st;
+              bg_redirects := st_redirects st; bg_imports := bg_imports g;
+              bg_has_node := st_has_node st; bg_loads := st_loads st |}
+  end.
